@@ -16,7 +16,7 @@ def do_var_case(ctx, inp):
     I = {k: tuple(v) for k, v in inp["I"].items()}
     ctx.case(inp, nontrivial=(lo, hi) != (0, 1) or i in I, tags={"bare-variable", "named" if i in I else "not-named"})
     v = puan.variable(i, (lo, hi))
-    got = v.evaluate(render_interp(ctx.rng, I))
+    got = v.evaluate(render_interp(ctx.rng, I, basic=True))
     got = [int(got.lower), int(got.upper)]
     ctx.op({"op": "evaluate", "t": {"k": "leaf", "id": i, "lo": lo, "hi": hi}, "I": interp_json(I)}, {"b": got})
     want = list(I[i]) if i in I else [lo, hi]
